@@ -252,8 +252,11 @@ def gen_held_seq(rng, nblocks):
             calls.append({"op": "upd", "name": x, "query": sim[x]})
         calls.append({"op": "jobmark", "name": x})
         xdef = sim[x]
+        attrs_only = rng.random() < 0.3
         for _ in range(rng.choice([2, 3, 4, 6])):
             r = rng.random()
+            if attrs_only:
+                r = rng.choice([0.9, 0.9, 0.95, 0.6])     # colour, converters, a referrer
             others = [n for n in names if n != x]
             if r < 0.25:
                 calls.append({"op": "del", "name": x})
@@ -274,10 +277,11 @@ def gen_held_seq(rng, nblocks):
                 calls.append({"op": "del", "name": y})
                 if not any(y in refs_of_def(d) for k, d in sim.items() if k != y):
                     sim.pop(y, None)
-            elif r < 0.86:
+            elif r < 0.84:
                 calls.append({"op": "upd", "name": x, "newname": x.split("/")[0] + "/" + rng.choice("xyz")})
-            elif r < 0.92:
-                calls.append({"op": "upd", "name": x, "color": rng.choice(["green", "black"])})
+            elif r < 0.93:
+                # changed while the job runs: must survive the completion
+                calls.append({"op": "upd", "name": x, "color": rng.choice(["green", "black", "#123456"])})
             elif r < 0.96:
                 calls.append({"op": "upd", "name": x, "conv": rng.choice([["ca"], [], ["ca", "cb"]])})
             else:
